@@ -4,6 +4,7 @@ from ..engine import Engine, Inconclusive, C, fmt, subterms
 from ..common import site
 from .ops import strip_casts
 from .c09 import root_of
+from . import c04
 
 THIS_OBJ = ("deref", ("this",))
 
@@ -37,6 +38,8 @@ def run(rep, tier):
              "calculator derives from S's field list under the sandbox ABI (natural alignment), field names/order equal S's; tainted<S> has the application layout of S")
     rep.rule("R-C08-fields", "in each generated converter (tainted_volatile::get_raw_value, tainted::get_raw_sandbox_value, tainted(const tainted_volatile&), tainted_volatile::operator=, both convert_type_class::run) "
              "on every path every field of S is written exactly from the field of the same name (same element index for arrays) of the source object; no field is skipped, duplicated or fed from a neighbour")
+    rep.rule("R-C08-pointers", "pointer fields are translated relative to the sandbox the struct image lives in: every context-free translation in a generated converter receives the address of the "
+             "sandbox-memory object (the tainted_volatile struct or one of its fields) as its example, every context translation uses the caller's sandbox")
     rep.rule("R-C08-nested", "nested registered structs are converted recursively (their leaf fields appear in the mapping)")
     backends = ["model32", "noop"] if tier == "quick" else ["model32", "model32gi", "noop", "dylib"]
     dbs = facts.load_core(backends, ["INVOKE"], thorough=(tier == "thorough"))
@@ -58,9 +61,13 @@ def run(rep, tier):
             try:
                 check_fields(rep, db, f, inst, role)
                 n["conv"] += 1
+                if c04.is_example_user(f):
+                    if c04.check_example(rep, db, f, inst, rule="R-C08-pointers"):
+                        n["ptr"] = n.get("ptr", 0) + 1
             except Inconclusive as ex:
                 rep.inconclusive("R-C08-fields", site(f), str(ex), inst)
     rep.require(n["layout"] >= 12, "only %d layouts compared (floor 12)" % n["layout"])
+    rep.require(n.get("ptr", 0) >= 8, "only %d converters with pointer-field translations analysed (floor 8)" % n.get("ptr", 0))
     rep.require(n["conv"] >= 20, "only %d converter instantiations analysed (floor 20)" % n["conv"])
     rep.extra["instances"] = n
     rep.assumptions += ["field values are decided per kind by C04 (pointers) and C06 (integers); this check decides layout and field routing",
